@@ -780,6 +780,31 @@ func (vc *VC) applySpecFunc(sf *SpecFunc, args []SpecVal, env *Env) SpecVal {
 		sorts = append(sorts, srt)
 		ts = append(ts, a.T)
 	}
+	if sf.Body != nil && sf.Opaque {
+		name := "sf_" + sf.Name
+		if !vc.enc.declared[name] {
+			vc.enc.Declare(name, fmt.Sprintf("(declare-fun %s (%s) %s)", name, strings.Join(sorts, " "), rs))
+			// quantified defining axiom, triggered by the application itself
+			vars := map[string]SpecVal{}
+			var binders, bts []string
+			for i, p := range sf.Params {
+				gt, srt := vc.sortOfTypeExpr(p.T, fenv)
+				bn := fmt.Sprintf("%s!o", p.Name)
+				vars[p.Name] = SpecVal{T: bn, Sort: srt, GoT: gt}
+				binders = append(binders, fmt.Sprintf("(%s %s)", bn, sorts[i]))
+				bts = append(bts, bn)
+			}
+			n := &Env{vc: vc, st: vc.entry, old: vc.entry, vars: vars, pkg: fenv.pkg, depth: 50}
+			body := vc.materialize(vc.eval(sf.Body, n), n)
+			app := sx(name, bts...)
+			if len(binders) > 0 {
+				vc.axiomAsserts = append(vc.axiomAsserts, fmt.Sprintf("(forall (%s) (! (= %s %s) :pattern (%s)))", strings.Join(binders, " "), app, body.T, app))
+			} else {
+				vc.axiomAsserts = append(vc.axiomAsserts, eq(app, body.T))
+			}
+		}
+		return SpecVal{T: sx(name, ts...), Sort: rs, GoT: rt}
+	}
 	if sf.Body != nil && !sf.Rec {
 		// defined (non-recursive) spec function: expand
 		vars := map[string]SpecVal{}
